@@ -625,7 +625,8 @@ pub fn rv_spaces(r: &mut Sm) -> Vec<Sp> {
 }
 
 pub fn so2_spaces(r: &mut Sm) -> Vec<Sp> {
-    let bs = [None, Some((-1.0, 1.0)), Some((3.0, PI)), Some((-PI, -3.0)), Some((-3.0, 3.0)), Some((-0.5, 2.5)), Some((-4.0, 4.0)), Some((0.0, 1e-9))];
+    let bs = [None, Some((-1.0, 1.0)), Some((3.0, PI)), Some((-PI, -3.0)), Some((-3.0, 3.0)), Some((-0.5, 2.5)), Some((-4.0, 4.0)), Some((0.0, 1e-9)),
+              Some((-PI / 2.0, PI / 2.0)), Some((0.0, PI)), Some((-PI, 0.0)), Some((-2.0, 2.0 - PI))];
     bs.iter().map(|b| Sp::So2 { bounds: *b, frac: r.pick(&fracs()).clone() }).collect()
 }
 
@@ -1255,7 +1256,16 @@ pub fn oracle_interp(sp: &Sp, real: &RealSp, a: &St, b: &St, t: f64, out: &mut V
     let Some(R::Ok(r)) = op_interp(real, a, b, t, a) else { return };
     let Some(dab) = okf(op_dist(real, a, b)) else { return };
     let (Some(dar), Some(drb)) = (okf(op_dist(real, a, &r)), okf(op_dist(real, &r, b))) else { return };
-    let tl = tol(sp, dab) * 4.0 + lerp_extra(sp);
+    // rounding of from + (to - from) * t is relative to the size of the coordinates, not to d(a, b)
+    // (adjacent floats: d = 1 ulp, and the midpoint rounds onto an end point)
+    fn mag(s: &St) -> f64 {
+        match s {
+            St::Rv(v) => v.iter().fold(0.0, |m, x| m.max(x.abs())),
+            St::C(l) => l.iter().map(mag).fold(0.0, f64::max),
+            _ => 0.0,
+        }
+    }
+    let tl = tol(sp, dab) * 4.0 + lerp_extra(sp) + 8.0 * f64::EPSILON * mag(a).max(mag(b));
     // exactly antipodal pairs have two shortest paths; the laws below still hold for either
     if (dar - t * dab).abs() > tl {
         out.push(finding("C10", "not_constant_speed_from", format!("{sp:?}: d(a, interp(a,b,{t})) = {dar}, expected {} (a = {a:?}, b = {b:?})", t * dab)));
@@ -1287,6 +1297,58 @@ pub fn oracle_interp(sp: &Sp, real: &RealSp, a: &St, b: &St, t: f64, out: &mut V
     }
 }
 
+/// C04 at the level of one space: boxes and SO(2) intervals of span <= PI are convex under the space's own
+/// interpolation - from two states inside the bounds every interpolated state is inside (bounded SO(3) cones are
+/// excluded: not convex in general, see Props/C04.v)
+pub fn oracle_convex(sp: &Sp, real: &RealSp, a: &St, b: &St, t: f64, out: &mut Vec<Finding>) {
+    fn bounded_so3(sp: &Sp) -> bool {
+        match sp {
+            Sp::So3 { bounds: Some(_), .. } => true,
+            Sp::Cs(s) => s.iter().any(|(x, _)| bounded_so3(x)),
+            _ => false,
+        }
+    }
+    fn wide_so2(sp: &Sp) -> bool {
+        match sp {
+            Sp::So2 { bounds: Some((lo, hi)), .. } => hi.min(PI) - lo.max(-PI) > PI,
+            Sp::Se2 { bounds: Some(b), .. } if b.len() == 3 => b[2].1.min(PI) - b[2].0.max(-PI) > PI,
+            Sp::Cs(s) => s.iter().any(|(x, _)| wide_so2(x)),
+            _ => false,
+        }
+    }
+    if bounded_so3(sp) || !(0.0..=1.0).contains(&t) || st_bits(a).iter().chain(st_bits(b).iter()).any(|x| !f64::from_bits(*x).is_finite()) {
+        return;
+    }
+    if bounds_excess(sp, a) > 0.0 || bounds_excess(sp, b) > 0.0 {
+        return;
+    }
+    // "within the bounds" as the library itself judges it (a state stored as PI / -PI on an interval ending at PI is
+    // rejected by satisfies_bounds: recorded under C11, and then the premise of C04 does not hold)
+    if !matches!(op_satisfies(real, a), Some(R::Ok(true))) || !matches!(op_satisfies(real, b), Some(R::Ok(true))) {
+        return;
+    }
+    // boxes wider than f64::MAX: `to - from` overflows; no planner can sample such a box (sample_uniform panics,
+    // recorded under C11) and a steering step towards a state at infinite distance yields NaN, never a path
+    fn overflowing(sp: &Sp) -> bool {
+        match sp {
+            Sp::Rv { bounds: Some(b), .. } => b.iter().any(|(lo, hi)| !(hi - lo).is_finite()),
+            Sp::Cs(s) => s.iter().any(|(x, _)| overflowing(x)),
+            Sp::Se2 { bounds: Some(b), .. } | Sp::Se3 { bounds: Some(b), .. } => b.iter().any(|(lo, hi)| !(hi - lo).is_finite()),
+            _ => false,
+        }
+    }
+    if overflowing(sp) {
+        return;
+    }
+    if let Some(R::Ok(o)) = op_interp(real, a, b, t, a) {
+        let ex = bounds_excess(sp, &o);
+        if ex > 1e-9 {
+            let class = if wide_so2(sp) { "out_of_bounds:so2_span_gt_pi" } else { "out_of_bounds:interpolation" };
+            out.push(finding("C04", class, format!("{sp:?}: interpolate({a:?}, {b:?}, {t}) = {o:?} is outside the bounds by {ex:e} although both end points are inside")));
+        }
+    }
+}
+
 fn has_rot_tie(sp: &Sp, _real: &RealSp, a: &St, b: &St) -> bool {
     // any rotational component within 1e-6 of being antipodal
     fn go(sp: &Sp, a: &St, b: &St) -> bool {
@@ -1311,6 +1373,36 @@ fn st_bits(s: &St) -> Vec<u64> {
         St::So2(v) => vec![v.to_bits()],
         St::So3(q) => q.iter().map(|x| x.to_bits()).collect(),
         St::C(l) => l.iter().flat_map(st_bits).collect(),
+    }
+}
+
+/// how far outside the bounds of `sp` the state is, in the natural measure of each component (0 = inside)
+pub fn bounds_excess(sp: &Sp, s: &St) -> f64 {
+    fn wrap(a: f64) -> f64 {
+        (a + PI).rem_euclid(2.0 * PI) - PI
+    }
+    match (sp, s) {
+        (Sp::Rv { bounds: Some(b), .. }, St::Rv(v)) => v.iter().zip(b).map(|(x, (lo, hi))| (lo - x).max(x - hi).max(0.0)).fold(0.0, f64::max),
+        (Sp::So2 { bounds: Some((lo, hi)), .. }, St::So2(a)) => {
+            let (lo, hi) = (lo.max(-PI), hi.min(PI));
+            let a = wrap(*a);
+            if lo <= a && a <= hi { 0.0 } else { wrap(a - lo).abs().min(wrap(a - hi).abs()) }
+        }
+        (Sp::So3 { bounds: Some((c, m)), .. }, St::So3(q)) => {
+            let n = q.iter().map(|x| x * x).sum::<f64>().sqrt();
+            if !(n > 0.0) || !n.is_finite() {
+                return PI;
+            }
+            let dot: f64 = q.iter().zip(c).map(|(x, y)| x / n * y).sum();
+            (2.0 * dot.abs().min(1.0).acos() - m).max(0.0)
+        }
+        (Sp::Cs(subs), St::C(l)) => subs.iter().zip(l).map(|((sp, _), s)| bounds_excess(sp, s)).fold(0.0, f64::max),
+        (Sp::Se2 { bounds: Some(b), .. }, St::C(l)) if l.len() == 2 && b.len() == 3 => {
+            bounds_excess(&Sp::Rv { dim: 2, bounds: Some(vec![b[0], b[1]]), frac: None }, &l[0])
+                .max(bounds_excess(&Sp::So2 { bounds: Some(b[2]), frac: None }, &l[1]))
+        }
+        (Sp::Se3 { bounds: Some(b), .. }, St::C(l)) if l.len() == 2 => bounds_excess(&Sp::Rv { dim: 3, bounds: Some(b.clone()), frac: None }, &l[0]),
+        _ => 0.0,
     }
 }
 
@@ -1341,7 +1433,12 @@ pub fn oracle_bounds(sp: &Sp, real: &RealSp, s: &St, out: &mut Vec<Finding>) {
     }
     match op_satisfies(real, &e1) {
         Some(R::Ok(true)) => {}
-        Some(R::Ok(false)) => out.push(finding("C11", &format!("enforce_not_satisfied:{kind}"), format!("{sp:?}: satisfies_bounds(enforce_bounds({s:?})) = false (enforced: {e1:?})"))),
+        Some(R::Ok(false)) => {
+            // the recorded findings are all rounding-level misses (the enforced state sits within a few ulp of the
+            // boundary); an enforced state that is really outside is a different class
+            let far = if !huge_quat && bounds_excess(sp, &e1) > 1e-9 { ":far" } else { "" };
+            out.push(finding("C11", &format!("enforce_not_satisfied:{kind}{far}"), format!("{sp:?}: satisfies_bounds(enforce_bounds({s:?})) = false (enforced: {e1:?}, outside by {:e})", bounds_excess(sp, &e1))))
+        }
         Some(R::Panic) => out.push(finding("C11", "satisfies_panics", format!("{sp:?}: satisfies_bounds panics on {e1:?}"))),
         _ => {}
     }
@@ -1350,7 +1447,9 @@ pub fn oracle_bounds(sp: &Sp, real: &RealSp, s: &St, out: &mut Vec<Finding>) {
         // rounding): judged in the space's own metric within its tolerance
         let same_cfg = okf(op_dist(real, &e1, &e2)).map(|d| d <= tol(sp, 0.0)).unwrap_or(false);
         if st_bits(&e2) != st_bits(&e1) && !same_cfg {
-            out.push(finding("C11", &format!("enforce_not_idempotent:{kind}"), format!("{sp:?}: enforce(enforce({s:?})) = {e2:?} differs from {e1:?}")));
+            let moved = okf(op_dist(real, &e1, &e2)).unwrap_or(f64::INFINITY);
+            let far = if !huge_quat && !(moved <= 1e-6) { ":far" } else { "" };
+            out.push(finding("C11", &format!("enforce_not_idempotent:{kind}{far}"), format!("{sp:?}: enforce(enforce({s:?})) = {e2:?} differs from {e1:?} (moved by {moved:e})")));
         }
     }
     if !canonical(sp, &e1) {
